@@ -362,6 +362,9 @@ def run(ctx):
     ctx.obligations, ctx.discharged = n + gen_n, d + gen_ok
     details["Gen.DfaCerts"] = f"{gen_ok}/{gen_n} generated decide+kernel instances (bundled-family expressions) built"
     ctx.audit_details = details
+    if ok:
+        # the family schemas as Lean data: `<name>_builds : buildSchema <spec> = .ok <compiled>` by the kernel
+        core.family_phase(ctx, builds=True)
     return ctx.finish(
         rule="a case is one content expression in one node table: every expression of the bundled-family schemas (kernel-checked "
              "certificate), of random schema specs, and enumerated/malformed expressions as the content of `doc`; the real matcher "
